@@ -106,6 +106,46 @@ Proof.
   destruct (Hk7 8 _ (or_introl eq_refl) eq_refl) as (et8 & ix8 & HF8 & _). vm_compute in HF8. discriminate.
 Qed.
 
+(* ---- a copy across versions keeps a NESTED element without SHORT-NAME whose type is identifiable only in the target version
+   (known finding C07 copy-unnamed-into-named-version; found by the cross-version content sweep of checks/c07.py) ----
+   Model 0 / file f0 in AUTOSAR_00045 (bit 4096): AR-PACKAGE n1 / ELEMENTS / MACHINE n3 / MODULE-INSTANTIATIONS /
+   LOG-AND-TRACE-INSTANTIATION n5 / NETWORK-CONFIGURATIONS (5040) / ETHERNET-NETWORK-CONFIGURATION (4338): the last one has no
+   SHORT-NAME entry in 00045, create_sub_element makes it.  Model 1 / file f1 in AUTOSAR_00046 (bit 8192) with the same chain down to
+   LOG-AND-TRACE-INSTANTIATION.  create_copied_sub_element(LOG-AND-TRACE-INSTANTIATION of model 1, NETWORK-CONFIGURATIONS of model 0)
+   succeeds; below the copy hangs an ETHERNET-NETWORK-CONFIGURATION whose type IS identifiable in 00046 and whose content is empty.
+   The check added by fix f5f3361 looks at the top element of the copy only; creating the same element through
+   create_sub_element in the target file is refused (ItemNameRequired). *)
+Definition unnamed_ops : list op :=
+  [OpNewModel; OpCreateFile 0 [102; 48] 4096; OpCreateSub 0 5413; OpCreateNamed 1 5250 [110; 49]; OpCreateSub 2 3929;
+   OpCreateNamed 4 3392 [110; 51]; OpCreateSub 5 2108; OpCreateNamed 7 4996 [110; 53]; OpCreateSub 8 5040; OpCreateSub 10 4338;
+   OpNewModel; OpCreateFile 1 [102; 49] 8192; OpCreateSub 12 5413; OpCreateNamed 13 5250 [110; 49]; OpCreateSub 14 3929;
+   OpCreateNamed 16 3392 [110; 51]; OpCreateSub 17 2108; OpCreateNamed 19 4996 [110; 53]].
+
+Lemma copy_keeps_unnamed_nested :
+  forall (tab_el tab_en : nametab) (root_attrs : list (N * cdata)),
+  exists (w : world) (h other c : id) (w' : world) (nc nk : node) (k : id) (v : N) (w2 : world),
+    run_ops RT tab_el tab_en ok_check REAL_LATEST root_attrs unnamed_ops (mkWorld (fun _ => None) 0 [] []) = Val w /\
+    e_create_copied_sub_element RT REAL_LATEST h other w = Val (OK c, w') /\
+    min_version REAL_LATEST h w' = Val (OK v, w') /\
+    w_nodes w' c = Some nc /\ In (CElem k) (n_content nc) /\ w_nodes w' k = Some nk /\
+    is_named_in_version RT (n_type nk) v = Val true /\ n_content nk = [] /\
+    find_sub_element RT (n_type nc) (n_name nk) v = Val (Some (n_type nk, [0])) /\
+    e_create_sub_element RT REAL_LATEST c (n_name nk) w' = Val (ER ItemNameRequired, w2).
+Proof.
+  intros tab_el tab_en root_attrs.
+  eexists. exists 20, 10, 22. eexists. eexists. eexists. exists 23, 8192. eexists.
+  split; [vm_compute; reflexivity|].
+  split; [vm_compute; reflexivity|].
+  split; [vm_compute; reflexivity|].
+  split; [vm_compute; reflexivity|].
+  split; [left; reflexivity|].
+  split; [vm_compute; reflexivity|].
+  split; [vm_compute; reflexivity|].
+  split; [reflexivity|].
+  split; [vm_compute; reflexivity|].
+  vm_compute. reflexivity.
+Qed.
+
 (* ---- "every node of every reachable world is Ordered for its CURRENT min_version" is false ----
    Ordered is relative to a version (find_sub_element is); min_version of an element changes when a file of another version
    joins the model.  History: new model; file f0 in the latest version; create FILE-INFO-COMMENT (name 1043, not in 4.0.1) in
